@@ -66,6 +66,5 @@ theorem withinQ_eq (strict : Bool) (numer denom : Nat) (t : Q) (k : Nat) (hk : (
   unfold withinQ distanceWithin
   rw [← hk]
   cases strict <;> simp only [Bool.false_eq_true, if_false, if_true] <;> split <;> norm_cast
-  · simp
 
 end PairThresholds
